@@ -14,6 +14,7 @@ import fcntl, hashlib, json, os, re, subprocess, sys, time
 VERIF = os.path.dirname(os.path.dirname(os.path.abspath(__file__)))
 sys.path.insert(0, os.path.join(VERIF, "tools"))
 import gen_tables  # noqa: E402
+import src_baseline  # noqa: E402
 from propcfg import PROPS  # noqa: E402
 
 LEAN = os.path.join(VERIF, "lean")
@@ -451,12 +452,21 @@ def main():
 
     # P failed or tie broken without a failing input: spend the search budget
     searched = 0
-    if (not info["proof_ok"] or ties) and not viol:
-        extra = []
-        for s in range(cfg.get("search_seeds", 6)):
-            extra += gen_lines(prop, seed * 7919 + 1 + s, cfg["n_quick"] * 2, "thorough")
-        searched = len(extra)
-        rows2 = run_cases(extra, log)
+    # The sources the model was transcribed from differ from the recorded fingerprints (tools/src_baseline.py):
+    # not an alarm and not part of the tie, but a reason to spend the search budget in the quick tier too.
+    src_changed = src_baseline.changed(os.environ.get("HIFI_REPO", "/repo")) if tier == "quick" else []
+    if src_changed:
+        log("sources differ from the recorded baseline (%s): quick tier runs the extended search" % ", ".join(src_changed[:6]))
+    if (not info["proof_ok"] or ties or src_changed) and not viol:
+        from concurrent.futures import ThreadPoolExecutor
+        nseeds = max(cfg.get("search_seeds", 6), 8 if src_changed else 0)
+        def search_shard(s):
+            return run_cases(gen_lines(prop, seed * 7919 + 1 + s, cfg["n_quick"] * 2, "thorough"), log)
+        rows2 = []
+        with ThreadPoolExecutor(max_workers=8) as ex:
+            for part in ex.map(search_shard, range(nseeds)):
+                rows2 += part
+        searched = len(rows2)
         v2, k2, t2, n2, a2 = classify(rows2, prop, known_tags)
         rows += rows2
         viol += v2
@@ -527,7 +537,8 @@ def main():
 
     write_evidence(prop, cfg, tier, seed, info, rows, viol, known, ties, notrep, agree, t_start,
                    len(viol) + (1 if exit_code and not viol else 0),
-                   {"stale_findings": stale, "corpus_cases": ncorpus, "witness_cases": len(wit), "searched_extra": searched})
+                   {"stale_findings": stale, "corpus_cases": ncorpus, "witness_cases": len(wit), "searched_extra": searched,
+                    "source_files_changed_since_baseline": src_changed})
     for l in known_lines:
         print(l)
     for l in out_lines:
